@@ -43,7 +43,7 @@ ASSUMPTIONS = ["a deterministic ECU is a function of the yielded pair (use_physi
 def gen_leaf(rng, allow_float):
     r = rng.random()
     if r < 0.38:
-        return ["s", rng.choice(["a", "b", "1", "ff", "AB", "255", "0x1a", ""])]
+        return ["s", rng.choice(["a", "b", "1", "ff", "AB", "255", "0x1a", "", "AB  ", " a", "1 ", " "])]
     if r < 0.58:
         return ["i", str(rng.choice([0, 1, 255, -1, 26, 7]))]
     if r < 0.70:
@@ -72,6 +72,18 @@ def render_expected(rng, leaf):
     if t == "f":
         return rng.choice([repr(v), repr(v + 1e-9)])
     return str(v)
+
+
+PADS = [(" ", ""), ("", " "), ("  ", "  "), ("\t", ""), ("", "\n"), ("", "  ")]
+
+
+def pad_expected(rng, exp):
+    """a text that differs from exp only by white space at its ends (white space in an expected value is significant:
+    it is neither equal to the unpadded text nor to a differently padded one)"""
+    if exp != exp.strip() and rng.random() < 0.4:
+        return rng.choice([exp.strip(), exp.lstrip(), exp.rstrip(), exp.strip() + " "])
+    a, b = rng.choice(PADS)
+    return a + exp + b
 
 
 def gen_tree(rng, allow_float, odd):
@@ -153,8 +165,9 @@ def gen_services(rng, vi, names, mode, alphabet, allow_float, malformed, shared_
     return svcs
 
 
-def candidate_targets(v):
+def candidate_targets(v, paths=None):
     """(service name, path, leaf) triples that occur in the decode tables of variant v"""
+    paths = PATHS if paths is None else paths
     out = []
     for s in v["services"]:
         for t in list(s["pos"]) + list(s["neg"]) + list(v["gneg"]):
@@ -162,7 +175,7 @@ def candidate_targets(v):
                 if o[0] != "val":
                     continue
                 tree = L.py_of(o[1])
-                for path in PATHS:
+                for path in paths:
                     for leaf in L.ref_leaves(tree, list(path)):
                         if isinstance(leaf, L.IllTyped) or isinstance(leaf, (dict, list, tuple)):
                             continue
@@ -179,6 +192,8 @@ def gen_param(rng, v, base, malformed, names):
         sn = rng.choice([s["name"] for s in v["services"]] or names)
         path = rng.choice(PATHS)
         exp = rng.choice(["a", "b", "1", "AB", "255", "0X1A", "None", "True"])
+    if rng.random() < 0.08:
+        exp = pad_expected(rng, exp)
     if malformed and rng.random() < 0.25:
         path = rng.choice(ODD_PATHS)
     if malformed and rng.random() < 0.05:
@@ -449,6 +464,64 @@ def gen_xml_layers(rng, malformed):
     return layers
 
 
+# text identification (blank padded fixed-length ASCII) and expected values with white space at their ends, through the real
+# loader: the expected values are derived from what the real decoder delivers for the responses of the alphabet
+XMLT_ALPHA_NUM = XML_ALPHA[:4]
+XMLT_ALPHA_STR = ["6203" + t.encode().hex() for t in ["AB  1 A  A", "  AB 1", "ABCDAB  ", " AB 1 AB", "ab  A ", "AB  AB1 ", "    1   "]]
+XMLT_ALPHA_NEG = ["7f2231", "7f1011", ""]
+XMLT_PATHS = [("id",), ("info", "type"), ("info", "code"), ("dtc",), ("items", "type"), ("nrc",), ("rsid",), ("sid",), ("did",),
+              ("name",), ("sw", "ver"), ("tags", "t")]
+XMLT_EXP = ["AB  ", "  AB", "AB", " AB ", "ABCD", "ab  ", "1 ", " 1", "1", "A ", " A", "A", "  ", " ", "", "5", " 5", "abcd "]
+
+
+def gen_xmltext(rng, malformed):
+    """-> (layers, alphabet) or raises if the skeleton cannot be loaded"""
+    n = rng.choice([1, 2, 2, 3, 4])
+    scenario = rng.choice(["ecu", "ecu", "base", "mixed"])
+    skel = []
+    for i in range(n):
+        kind = scenario if scenario != "mixed" else rng.choice(["ecu", "base"])
+        ks = rng.choice([[2], [2], [0, 2], [1, 2], [0], [0, 1]])
+        skel.append((f"L{i}", kind, [(f"S{k}", k + 1) for k in ks], []))
+    has_str = any(d >= 3 for l in skel for _, d in l[2])
+    has_num = any(d < 3 for l in skel for _, d in l[2])
+    pool = (XMLT_ALPHA_STR if has_str else []) + (XMLT_ALPHA_NUM if has_num else [])
+    alpha = rng.sample(pool, rng.choice([2, 2, 3])) + ([rng.choice(XMLT_ALPHA_NEG)] if rng.random() < 0.4 else [])
+    _, objs = L.xml_load(skel)
+    probe = L.cfg_from_objects(objs, False, True, alpha)
+    layers = []
+    for (name, kind, svcs, _), v in zip(skel, probe["cands"]):
+        # a text leaf that cannot be written into an XML 1.0 document (control characters; \r is normalised by the XML
+        # parser) cannot be an EXPECTED-VALUE
+        targets = [t for t in candidate_targets(v, XMLT_PATHS)
+                   if not (t[2][0] == "s" and any((ord(c) < 32 and c not in "\t\n") or ord(c) in (0x7f, 0xfffe, 0xffff) or 0xd800 <= ord(c) <= 0xdfff
+                                                  for c in t[2][1]))]
+        pats = []
+        for _ in range(rng.choice([0, 1, 1, 2, 3]) if kind == "ecu" else rng.choice([0, 1, 1, 1])):
+            pat = []
+            for _ in range(rng.choice([1, 1, 2, 3])):
+                if targets and rng.random() < 0.75:
+                    sn, path, leaf = rng.choice(targets)
+                    exp = render_expected(rng, leaf)
+                else:
+                    sn, path, exp = rng.choice(svcs)[0], rng.choice(XMLT_PATHS), rng.choice(XMLT_EXP)
+                if rng.random() < 0.4:
+                    exp = pad_expected(rng, exp)
+                if malformed and rng.random() < 0.3:
+                    snref, pth = rng.choice(XML_ODD + [("name.x", None), (None, "sw"), (None, "tags")])
+                elif len(path) == 1 and rng.random() < 0.6:
+                    snref, pth = path[0], None
+                else:
+                    snref, pth = None, ".".join(path)
+                if malformed and rng.random() < 0.05:
+                    sn = "S9"
+                pat.append({"exp": exp, "svc": sn, "snref": snref, "path": pth,
+                            "phys": (rng.choice(["none", True, False]) if kind == "base" else None)})
+            pats.append(pat)
+        layers.append((name, kind, svcs, pats))
+    return layers, alpha
+
+
 # ------------------------------------------------------------------ run
 def run_cfg(ctx, rng, fam, cfg0, objs, alphabet, witness_extra, pending, table_limit, n_misuse, stricts):
     keys = L.all_ident_keys(cfg0)
@@ -505,23 +578,39 @@ def run(ctx):
             if len(pending) > 4000:
                 flush(ctx, pending)
     flush(ctx, pending)
-    # XML family: real parser, real encode_request (bytearray!) and decode
-    for fam, malformed, count in [("xml", False, 900 if big else 110), ("xml-malformed", True, 350 if big else 45)]:
+    # XML family: real parser, real encode_request (bytearray!) and decode. The reference and the model get the matching
+    # parameters *as written in the document*, the real matcher the loaded objects: the loader is part of the checked system
+    xml_streams = [("xml", False, 900 if big else 110), ("xml-malformed", True, 350 if big else 45),
+                   ("xml-text", False, 700 if big else 90), ("xml-text-malformed", True, 200 if big else 25)]
+    for fam, malformed, count in xml_streams:
         r = ctx.sub_rng(fam)
         for n in range(count):
-            layers = gen_xml_layers(r, malformed)
+            layers = None
             try:
+                if fam.startswith("xml-text"):
+                    layers, alpha = gen_xmltext(r, malformed)
+                else:
+                    layers = gen_xml_layers(r, malformed)
+                    alpha = None
                 _, objs = L.xml_load(layers)
             except Exception as e:  # noqa
                 ctx.disagree(fam + "/load", layers, "-", "foreign:" + type(e).__name__)
                 continue
-            alpha = r.sample(XML_ALPHA, r.choice([2, 3, 3]))
+            if alpha is None:
+                alpha = r.sample(XML_ALPHA, r.choice([2, 3, 3]))
             for strict in (True, False):
                 try:
                     cfg0 = L.cfg_from_objects(objs, strict, True, alpha)
+                    cfg0, differ = L.with_document_patterns(cfg0, layers)
                 except Exception as e:  # noqa
                     ctx.disagree(fam + "/cfg", layers, "-", "foreign:" + type(e).__name__)
                     continue
+                if differ:
+                    ctx.count("xml_layers_whose_loaded_patterns_differ_from_the_document", differ)
+                for v in cfg0["cands"]:
+                    for pat in v["patterns"]:
+                        for p in pat:
+                            ctx.histo("xml_expected_value", "blank-at-end" if p["exp"] != p["exp"].strip() else "plain")
                 cfg0 = {"cands": cfg0["cands"]}
                 run_cfg(ctx, r, fam, cfg0, objs, alpha, {"layers": layers, "alphabet": alpha}, pending, 27 if big else 9, 1, (strict,))
             if len(pending) > 4000:
